@@ -366,6 +366,7 @@ Definition step (st : state) (l : label) : option state :=
   | LWake ws t q tu =>
     match get_task t st.(tasks) with
     | Some x => if (q =? wake_dest tu x.(t_unsteal) x.(t_shep) ws) && (ws <? st.(nsh)) && (q <? st.(nsh))
+                   && tstate_eqb x.(t_state) FEB_BLOCKED
                 then option_map (fun st' => modify st' t (fun x => with_state x RUNNING)) (move st t Blocked (InQueue q (qnode x)))
                 else None
     | None => None
@@ -373,6 +374,7 @@ Definition step (st : state) (l : label) : option state :=
   | LLaunch ws t q =>
     match get_task t st.(tasks) with
     | Some x => if (q =? launch_dest x.(t_target) ws) && (ws <? st.(nsh)) && (q <? st.(nsh))
+                   && tstate_eqb x.(t_state) NASCENT
                 then option_map (fun st' => modify st' t (fun x => with_state x NEW)) (move st t Nascent (InQueue q (qnode x)))
                 else None
     | None => None
